@@ -36,6 +36,10 @@ theorem callFn_mono (ft : FTab) (n : Nat) (ih : ∀ m, m < n → Mono o ft m)
       | some pb =>
         obtain ⟨ps, b⟩ := pb
         simp only
+        cases bindTop b with
+        | none => intro _; rfl
+        | some bound =>
+        simp only
         by_cases hlen : (ps.length != vs.length) = true
         · simp only [hlen, if_true]; intro _; trivial
         · simp only [hlen, Bool.false_eq_true, if_false]
@@ -44,7 +48,7 @@ theorem callFn_mono (ft : FTab) (n : Nat) (ih : ∀ m, m < n → Mono o ft m)
           | succ k =>
             simp only
             intro h
-            have hinner : execL ⟨ft, o⟩ k { globals := s.globals, locals := some (ps.zip vs), declGlobal := declaredGlobals b, out := s.out, imports := s.imports } b ≠ .timeout := by
+            have hinner : execL ⟨ft, o⟩ k { globals := s.globals, locals := some (ps.zip vs), declGlobal := declaredGlobals b, out := s.out, imports := s.imports, localNames := ps ++ canonNames bound } b ≠ .timeout := by
               intro ht
               rw [ht] at h
               exact h rfl
